@@ -23,6 +23,31 @@ def live_joint(w, snap):
     return rho, dims, names
 
 
+SCOPE_ABOVE = 3000     # joint dimension above which the state clause is evaluated on the blocks the call touched only
+
+
+def block_closure(old, new, targets: Sequence[str]) -> List[str]:
+    """smallest set of subsystems containing the targets that is a union of whole blocks before and after the call"""
+    scope = set(targets)
+    while True:
+        add = set()
+        for snap in (old, new):
+            for b in snap.blocks:
+                if scope & set(b.members):
+                    add |= set(b.members)
+        if add <= scope:
+            return [n for n in old.live if n in scope]
+        scope |= add
+
+
+def joint_dimension(snap) -> int:
+    D = 1
+    for b in snap.blocks:
+        for d in b.dims:
+            D *= int(d)
+    return D
+
+
 def safe_joint(w, snap):
     try:
         return live_joint(w, snap)
@@ -319,13 +344,24 @@ class ApplyOperation(Contract):
         if ghost["joint"] is None:
             return cl
         rho0, dims0, names0 = ghost["joint"]
+        if list(new.live) != names0:
+            cl.append(Clause("C01", "same-live-subsystems", False, f"{names0} -> {list(new.live)}"))
+            return cl
         try:
-            rho1, dims1, names1 = live_joint(w, new)
+            if joint_dimension(new) > SCOPE_ABOVE:
+                # large world (a Fock space was enlarged): the blocks are independent tensor factors, so the clause on the union of
+                # the blocks the call touched plus `bystander-blocks-untouched` (bit-identical, frame_clauses above) is the clause on the joint
+                names1 = block_closure(old, new, tn)
+                rho0, dims0 = W.joint_rho(old, names1, partial=True)
+                rho1, dims1 = W.joint_rho(new, names1, partial=True)
+                names0 = names1
+                by = [c for c in cl if c.name == "bystander-blocks-untouched"]
+                cl.append(Clause("C03" if len(tn) > 1 else "C01", "identity-on-the-blocks-outside-the-touched-ones", all(c.ok for c in by),
+                                 "; ".join(c.detail for c in by if not c.ok)[:300]))
+            else:
+                rho1, dims1, names1 = live_joint(w, new)
         except ValueError as ex:
             cl.append(Clause("C01", "joint-state-readable", False, str(ex)))
-            return cl
-        if names1 != names0:
-            cl.append(Clause("C01", "same-live-subsystems", False, f"{names0} -> {names1}"))
             return cl
         tidx = [names1.index(t) for t in tn]
         O, ren = spec_operator(ghost["op"], [dims1[i] for i in tidx])
